@@ -399,27 +399,21 @@ def coq_term(c):
     return f"k_expr {G.coq_expr(c['e'], c['sigs'])} {stims}"
 
 
-FINDING_BSEL = "C01-bit-select-signed-const-offset"
-
-
-def _signed_const_offset(t):
-    if isinstance(t, list):
-        if t and t[0] in ("d_bsel", "d_wsel") and t[2][0] in ("c", "pi", "ca", "en"):
-            off = t[2]
-            neg = off[1] < 0 if off[0] != "c" else bool(off[3])
-            if neg:
-                return True
-        return any(_signed_const_offset(x) for x in t)
-    return False
-
-
-def known_finding(c, obs, model):
-    """bit_select / word_select with a CONSTANT signed offset: the documentation promises TypeError, the code folds the offset
-    through Python's negative indexing (reported; C01_bit_select_signed_offset_refuted).  The model follows the code; a
-    mismatch is classified under the finding's id only when the implementation answers the documented TypeError instead."""
-    if c.get("k") is None and _signed_const_offset(c["e"]) and obs == [0, ERR_CLASS["TypeError"]] and model != obs:
-        return FINDING_BSEL
-    return None
+def extra(tier, seed, findings):
+    """Observation, not a verdict: C01 speaks about the values and shapes of the expressions that WERE built, not about which
+    malformed arguments are rejected.  bit_select / word_select document `TypeError if offset is signed`, but a constant signed
+    offset is folded through Python's negative indexing (the model follows the code: C01_bit_select_signed_offset_refuted;
+    the cases are in stream `rej`).  Probed live so that the note disappears when the behaviour does."""
+    from amaranth.hdl import Signal, Const, signed
+    obs = []
+    try:
+        r = Signal(4).bit_select(Const(-2, signed(3)), 1)
+        text = f"Signal(4).bit_select(Const(-2, signed(3)), 1) is accepted and builds {r!r} (documented: TypeError for a signed offset)"
+        obs.append(text)
+        print(f"NOTE: property={ID} observation (not a verdict): {text}")
+    except TypeError:
+        pass
+    return [], {"observations": obs}
 
 
 def explain(c):
